@@ -161,6 +161,7 @@ type Eff struct {
 	ReachDec                                  map[*ssa.Function]bool
 	GlobalReach                               map[*pta.Obj][]string // object -> globals it is reachable from
 	ParObj, InpObj, PixSrc, PixDst, FrameInfo *pta.Obj
+	EntryArgs                                 map[*pta.Obj]bool // pointer-like arguments of Encode*/Decode* entry points
 	CodecObjs, CodecReach                     map[*pta.Obj]bool
 	GuardedEdges                              map[*callgraph.Edge]string
 	LapsedExceptions                          []string
@@ -184,7 +185,7 @@ func (c *Ctx) effects() (*Eff, error) {
 		return nil, err
 	}
 	p := c.P
-	e := &Eff{EP: ep, RecvObj: map[*types.Named]*pta.Obj{}, InpParams: map[*pta.Obj]string{}, recvSeeded: map[string]bool{}}
+	e := &Eff{EP: ep, RecvObj: map[*types.Named]*pta.Obj{}, InpParams: map[*pta.Obj]string{}, recvSeeded: map[string]bool{}, EntryArgs: map[*pta.Obj]bool{}}
 	cfg := pta.Config{
 		CG: p.CG,
 		Enter: func(fn *ssa.Function) bool {
@@ -266,6 +267,11 @@ func (c *Ctx) effects() (*Eff, error) {
 			default:
 				if pointerLikeType(t) {
 					r.Params[i] = a.NewObj(pta.ExtArg, true, "ARG("+load.FuncName(f)+"."+prm.Name()+")", t)
+					if encDec[f] {
+						// an argument of an encoding / decoding entry point (an io.Reader, a struct of
+						// options): the adversary's, like the byte slices
+						e.EntryArgs[r.Params[i]] = true
+					}
 				}
 			}
 		}
